@@ -1,6 +1,7 @@
 CONSTANT Threads = {1}
 CONSTANT MaxCalls = 99
 CONSTANT AsCodedReinit = FALSE
+CONSTANT AllowEdits = TRUE
 CONSTANT CastInPlace = FALSE
 CONSTANT Depth = 8
 CONSTANT MaxBeh = 8000
